@@ -15,7 +15,7 @@
    (ancestor_mapper_init_ancestors, kept because tests/test_lowlevel.py::test_link_ancestors
    relies on it), C09-N1, N2, N3. *)
 From Coq Require Import List ZArith Bool.
-From TskVerif Require Import Base.Common C09.Guards C09.GuardProofs C09.MapMutations C09.SeekProofs C09.RatesProofs C09.Guards2 C09.Guard2Proofs.
+From TskVerif Require Import Base.Common C09.Guards C09.GuardProofs C09.MapMutations C09.SeekProofs C09.RatesProofs C09.Guards2 C09.Guard2Proofs C09.IndexProofs.
 Import ListNotations.
 Open Scope Z_scope.
 
@@ -305,3 +305,14 @@ Proof. exact Guard2Proofs.check_positions_repaired_in_range. Qed.
 Theorem with_id_parse_preserves_in_bounds : forall (A : Type) checked xs (r : res A),
   r <> OOB -> with_id_parse checked xs r <> OOB.
 Proof. exact @Guard2Proofs.with_id_parse_preserves_in_bounds. Qed.
+
+(* user-supplied table indexes (tables.indexes = TableCollectionIndexes(...), fromdict, files):
+   tsk_table_collection_check_index_integrity range-checks BOTH arrays before any edge column is
+   read through them; the seeded change C09-3 (removal order untested) is refuted *)
+Theorem guard_implies_in_bounds_check_index : forall ne ins rem edge_col,
+  zlen edge_col = ne -> check_index_entry true true ne ins rem edge_col <> OOB.
+Proof. exact IndexProofs.guard_implies_in_bounds_check_index. Qed.
+
+Theorem check_index_removal_unchecked_mutant_refuted :
+  exists ne ins rem edge_col, zlen edge_col = ne /\ check_index_entry true false ne ins rem edge_col = OOB.
+Proof. exact IndexProofs.check_index_removal_unchecked_mutant_refuted. Qed.
